@@ -1,8 +1,10 @@
 import DdoModel.Proofs.CutRun
 /-! # C19 (whole runs) — cutting the sequential search off later never yields worse information
 
-`Props/C05.lean` / `Props/C01b.lean` give the two mechanisms of C19 for **one** `process_one_node` (`process_lb_mono`: the incumbent
-never decreases; `process_below` / `next_pop_le`: whatever is open after a node has been processed is below that node's bound).  Here
+`Props/C05.lean` / `Props/C01b.lean` give the two mechanisms of C19 for **one** turn (`process_lb_mono`: the incumbent never decreases;
+`afterPop_ub_le` / `process_ub_eq`: `best_ub` is the running minimum of the popped bounds — written by a minimum at the pop, never by
+`process_one_node`; since the repair of finding D14 cut-set nodes are no longer capped by the bound of their parent, so the bounds of
+the popped nodes themselves may rise, `Ddo.C09.Layered.Rise`, and the pre-fix mechanism "whatever is open stays below the node in hand" is gone).  Here
 the property is decided as a theorem about **whole runs** of the closed solver of `Props/C01d.lean` (sequential solver over the diagram
 model `DdoModel/Mdd.lean`, `EmptyCache`, no dominance checker, either fringe, either cut-set kind), as a function of the poll index `k`
 at which the cutoff fires (`compile … (stopAt := some k)`, polls counted across compilations).  **The property holds.**
@@ -17,11 +19,15 @@ at which the cutoff fires (`compile … (stopAt := some k)`, polls counted acros
    (`SameTurns`: same popped nodes, same states — incumbent, solution, fringe, bookkeeping —, same polls) until the turn into which the
    `k`-th poll falls; there the compilation concerned answers `cutoff` where the uninterrupted one goes on, and the run ends in
    `abortAt`: `best_lb` = the incumbent of the uninterrupted run at that moment (after the update by the restricted diagram iff the
-   poll falls into the relaxed compilation), `best_ub` = the bound of the node in hand (`abortAt_report`).  If the uninterrupted run
+   poll falls into the relaxed compilation), `best_ub` = the running minimum of the bounds popped so far, the node in hand included
+   (`abortAt_report`).  If the uninterrupted run
    makes fewer than `k` polls the two runs coincide.
 3. **`cut_bounds_monotone`**: well-formed model, `1 ≤ k ≤ k'`: `best_lb(k) ≤ best_lb(k')` and `best_ub(k') ≤ best_ub(k)`
-   (`cut_pair_mono`, from any common state; `later_report`: whatever is reported later is within `[incumbent, bound in hand]`), a run
-   that ends before its cutoff fires reporting `(opt, opt)`.  `cut_bounds_bracket`: `best_lb(k) ≤ opt ≤ best_ub(k)`.
+   (`cut_pair_mono`, from any common state; `later_report`: whatever is reported later is within `[incumbent, reported bound]`), a run
+   that ends before its cutoff fires reporting `(opt, opt)` — which is below every earlier report because the running minimum is sound
+   (`RepInv`, `init_repInv`, `uturn_repInv`: the bound of a popped node that is not pruned is `≥ opt`, so is the minimum of such
+   bounds; once a popped maximum is pruned nothing open beats the incumbent any more and no cutoff can fire).
+   `cut_bounds_bracket`: `best_lb(k) ≤ opt ≤ best_ub(k)`.
 4. **`eventually_exact`**: well-formed model: with `K` = the number of polls of the uninterrupted run, for every `k > K` the cut run *is*
    the uninterrupted run (`solveCut_eq_of_lt`): `Completion { is_exact: true, best_value: Some(opt) }` with a feasible solution
    (`None` iff infeasible), `best_lb = best_ub = opt`.  `c19_sequential`: everything in one statement.
@@ -36,11 +42,11 @@ not pruned, to compare a cut run with a run that ends normally).  The structural
 
 ## remarks
 
-* `abort_search` leaves `best_ub` = the bound of the node in hand, whichever of the two compilations is cut off: no difference between
-  the restricted and the relaxed compilation of the same node; the duplicate-free fringe coalesces bounds with `max`, both operands being
-  below the bound of the node in hand (`C01b.process_below_any`): no bound is raised above it.  No counter-example.
-* Inside the loop `best_ub` is transiently *below* the optimum: a popped node that is pruned (`ub ≤ best_lb`) still sets
-  `best_ub := ub` (`TrapCut.transient_ub`: `best_ub = 3 < 4 = best_lb` after the third pop).  No cutoff can observe it in the sequential
+* `abort_search` leaves `best_ub` as the pop wrote it (the running minimum), whichever of the two compilations is cut off: no difference
+  between the restricted and the relaxed compilation of the same node; the duplicate-free fringe coalesces bounds with `max`, which can
+  only raise the bound of an open node — harmless for the reported bound, which is a minimum over *popped* bounds.  No counter-example.
+* Inside the loop `best_ub` is transiently *below* the optimum: a popped node that is pruned (`ub ≤ best_lb`) still lowers
+  `best_ub` to its bound (`TrapCut.transient_ub`: `best_ub = 3 < 4 = best_lb` after the third pop).  No cutoff can observe it in the sequential
   solver — a pruned node starts no compilation, hence no poll — and `get_workload` repairs it (`best_ub := best_lb`) when it finds
   the fringe empty.
 * panics: `solveCut` stops when a compilation *that was started* does not end (`cutCrash`), `solveLoop` when either modelled compilation
@@ -93,8 +99,9 @@ theorem uturn_facts {sv : SolverCfg S} {H : Nat → S → EInt} {B0 B : Int} (hw
     (sv.cR none (sv.pop s N rest) N p).1 = .ok ∧ (sv.cX none (sv.pop s N rest) N p).1 = .ok ∧
     sv.cutCrash none (sv.pop s N rest) N p = false ∧
     CInv sv H (sv.cutTurn none (sv.pop s N rest) N p).1 ∧
-    C05.Below (sv.cutTurn none (sv.pop s N rest) N p).1.fringe N ∧
-    N ∈ s.fringe ∧ N.depth ≤ sv.P.nbVars ∧ (sv.pop s N rest).bestLb = s.bestLb ∧ (sv.pop s N rest).bestUb = N.ub ∧
+    (sv.cutTurn none (sv.pop s N rest) N p).1.bestUb = (sv.pop s N rest).bestUb ∧
+    N ∈ s.fringe ∧ N.depth ≤ sv.P.nbVars ∧ (sv.pop s N rest).bestLb = s.bestLb ∧
+    (sv.pop s N rest).bestUb = min s.bestUb N.ub ∧
     (sv.pop s N rest).bestLb ≤ (sv.cutTurn none (sv.pop s N rest) N p).1.bestLb ∧
     (¬ N.ub ≤ (sv.pop s N rest).bestLb → optV sv H ≤ N.ub ∧
       ((sv.pop s N rest).updateBest (toOut (sv.cR none (sv.pop s N rest) N p).2.1)).bestLb ≤
@@ -114,7 +121,7 @@ theorem uturn_facts {sv : SolverCfg S} {H : Nat → S → EInt} {B0 B : Int} (hw
     compile_no_crash _ _ _ 0 rfl rfl (hwf.width N) hwf.nv hd
   have hfr : (sv.pop s N rest).fringe = rest := C01t.afterPop_fringe _ N
   have hlb : (sv.pop s N rest).bestLb = s.bestLb := (C01t.afterPop_lb_sol _ N).1
-  have hub : (sv.pop s N rest).bestUb = N.ub := by
+  have hub : (sv.pop s N rest).bestUb = min s.bestUb N.ub := by
     unfold SolverCfg.pop popped SeqSt.afterPop
     split <;> rfl
   have hbelow : C05.Below (sv.pop s N rest).fringe N := by
@@ -126,7 +133,7 @@ theorem uturn_facts {sv : SolverCfg S} {H : Nat → S → EInt} {B0 B : Int} (hw
   · rw [hturn]
     exact turn_cinv hwf _ N _ _ _ _ 0 0 hIp hokR0 hokX0
   · rw [hcut]
-    exact C01b.process_below_any sv.dedup _ N true _ _ hbelow
+    exact C05.process_ub_eq sv.dedup _ N true _ _
   · rw [hcut]
     exact C05.process_lb_mono sv.dedup _ N true _ _
   · intro hnp
@@ -159,8 +166,8 @@ theorem uturn_facts {sv : SolverCfg S} {H : Nat → S → EInt} {B0 B : Int} (hw
           simp only [Bool.not_true, Bool.false_eq_true, if_false, hex']
           split
           · exact updateBest_lb_ge _ x
-          · have enq : ∀ (s : SeqSt S) ub cs, (s.enqueue sv.dedup ub cs).bestLb = s.bestLb := by
-              intro s ub cs
+          · have enq : ∀ (s : SeqSt S) cs, (s.enqueue sv.dedup cs).bestLb = s.bestLb := by
+              intro s cs
               rw [enqueue_eq_foldl]
               induction cs generalizing s with
               | nil => rfl
@@ -231,18 +238,18 @@ theorem solveCut_none_run {sv : SolverCfg S} {H : Nat → S → EInt} {B0 B : In
   rw [solveCut_none hwf n sp hI]
   exact solveLoop_run sv n sp.1
 
-/-- **what the cut run reports** when the `k`-th poll falls into the turn of `N` popped from `s`: `best_ub` = the bound of the node in
-    hand; `best_lb` = the incumbent before the turn if the poll falls into the restricted compilation, the incumbent after
+/-- **what the cut run reports** when the `k`-th poll falls into the turn of `N` popped from `s`: `best_ub` = the running minimum of
+    the bounds popped so far, the node in hand included; `best_lb` = the incumbent before the turn if the poll falls into the restricted compilation, the incumbent after
     `maybe_update_best` on the restricted diagram if it falls into the relaxed one; `is_exact = false` -/
 theorem abortAt_report (sv : SolverCfg S) (s : SeqSt S) (N : SubP S) (rest : List (SubP S)) (p k : Nat) :
-    (finish (sv.abortAt (sv.pop s N rest) N p k)).bestUb = N.ub ∧
+    (finish (sv.abortAt (sv.pop s N rest) N p k)).bestUb = min s.bestUb N.ub ∧
     (finish (sv.abortAt (sv.pop s N rest) N p k)).bestLb =
       (if k ≤ (sv.cR none (sv.pop s N rest) N p).2.1.polls then s.bestLb
        else ((sv.pop s N rest).updateBest (toOut (sv.cR none (sv.pop s N rest) N p).2.1)).bestLb) ∧
     (finish (sv.abortAt (sv.pop s N rest) N p k)).completion.1 = false := by
   obtain ⟨_, a2, a3, _, _, a6, a7, a8⟩ := abortAt_facts sv (sv.pop s N rest) N p k
   have hlb : (sv.pop s N rest).bestLb = s.bestLb := (C01t.afterPop_lb_sol _ N).1
-  have hub : (sv.pop s N rest).bestUb = N.ub := by
+  have hub : (sv.pop s N rest).bestUb = min s.bestUb N.ub := by
     unfold SolverCfg.pop popped SeqSt.afterPop
     split <;> rfl
   rw [a8, a3, hub]
@@ -323,12 +330,90 @@ theorem cut_run_is_prefix (sv : SolverCfg S) (k : Nat) :
 
 /-! ## 3. monotonicity -/
 
+/-- **the reported pair is sound along the uninterrupted run**: either `best_lb ≤ best_ub` and the optimum is `≤ best_ub` (the running
+    minimum of the bounds popped so far), or the search is over in all but name: nothing left in the fringe beats the incumbent (every
+    further pop is pruned, no compilation is started, no cutoff can fire; this is the phase in which `best_ub` is transiently below
+    `best_lb`, `TrapCut.transient_ub`) -/
+def RepInv (sv : SolverCfg S) (H : Nat → S → EInt) (s : SeqSt S) : Prop :=
+  (s.bestLb ≤ s.bestUb ∧ optV sv H ≤ s.bestUb) ∨ (∀ c ∈ s.fringe, c.ub ≤ s.bestLb)
+
+/-- `RepInv` holds after `initialize`: `best_ub = isize::MAX` -/
+theorem init_repInv {sv : SolverCfg S} {H : Nat → S → EInt} {B0 B : Int} (hwf : WellFormed sv H B0 B) :
+    RepInv sv H (SeqSt.init sv.P none sv.dedup) := by
+  have hI : CInv sv H (SeqSt.init sv.P none sv.dedup) := init_cinv hwf
+  have hfr : (SeqSt.init sv.P none sv.dedup).fringe = [⟨sv.P.init, sv.P.initVal, [], iMax, 0⟩] := by
+    cases sv.dedup <;> rfl
+  have hlb : (SeqSt.init sv.P none sv.dedup).bestLb = iMin := rfl
+  have hub : (SeqSt.init sv.P none sv.dedup).bestUb = iMax := rfl
+  left
+  rw [hlb, hub]
+  refine ⟨by decide, ?_⟩
+  unfold optV
+  cases hopt : (H 0 sv.P.init).addI sv.P.initVal with
+  | none => show iMin ≤ iMax; decide
+  | some opt =>
+    show opt ≤ iMax
+    have hinv := hI.feas opt hopt
+    by_cases hgt : opt > (SeqSt.init sv.P none sv.dedup).bestLb
+    · obtain ⟨c, hc, _, hcu⟩ := hinv.cover hgt
+      rw [hfr] at hc
+      rcases List.mem_cons.mp hc with e | e
+      · subst e; exact hcu
+      · cases e
+    · rw [hlb] at hgt
+      have : iMin ≤ iMax := by decide
+      omega
+
+/-- **`RepInv` is preserved by every turn of the uninterrupted run** (best-first pop; the bound of a popped node that is not pruned is
+    `≥` the optimum, `uturn_facts`; a pruned maximum means that nothing open beats the incumbent any more) -/
+theorem uturn_repInv {sv : SolverCfg S} {H : Nat → S → EInt} {B0 B : Int} (hwf : WellFormed sv H B0 B) {s : SeqSt S}
+    (hI : CInv sv H s) (hR : RepInv sv H s) {N : SubP S} {rest : List (SubP S)} (hpop : popMax s.fringe = some (N, rest)) (p : Nat) :
+    RepInv sv H (sv.cutTurn none (sv.pop s N rest) N p).1 ∧
+    (¬ N.ub ≤ (sv.pop s N rest).bestLb →
+      (sv.pop s N rest).bestLb ≤ (sv.pop s N rest).bestUb ∧ optV sv H ≤ (sv.pop s N rest).bestUb) := by
+  obtain ⟨hperm, hmax⟩ := popMax_spec s.fringe N rest hpop
+  obtain ⟨_, _, _, hI', hubeq, hmem, _, hlb, hub, hmono, hnp⟩ := uturn_facts hwf hI hpop p
+  have hfr : (sv.pop s N rest).fringe = rest := C01t.afterPop_fringe _ N
+  have hcut : (sv.cutTurn none (sv.pop s N rest) N p).1 =
+      ((sv.pop s N rest).process sv.dedup N true (resOf (sv.cR none (sv.pop s N rest) N p))
+        (resOf (sv.cX none (sv.pop s N rest) N p))).1 := rfl
+  have hrestmem : ∀ c ∈ rest, c ∈ s.fringe := fun c hc => hperm.mem_iff.mpr (List.mem_cons_of_mem _ hc)
+  have hpr : N.ub ≤ (sv.pop s N rest).bestLb → RepInv sv H (sv.cutTurn none (sv.pop s N rest) N p).1 := by
+    intro hle
+    right
+    rw [hcut, process_pruned _ _ _ _ _ hle]
+    show ∀ c ∈ (sv.pop s N rest).fringe, c.ub ≤ (sv.pop s N rest).bestLb
+    rw [hfr]
+    intro c hc
+    have := hmax c hc
+    omega
+  have hgood : ¬ N.ub ≤ (sv.pop s N rest).bestLb →
+      (sv.pop s N rest).bestLb ≤ (sv.pop s N rest).bestUb ∧ optV sv H ≤ (sv.pop s N rest).bestUb := by
+    intro hn
+    obtain ⟨ho, _⟩ := hnp hn
+    rcases hR with ⟨h1, h2⟩ | h
+    · rw [hub, hlb]
+      rw [hlb] at hn
+      omega
+    · have := h N hmem
+      rw [hlb] at hn
+      omega
+  refine ⟨?_, hgood⟩
+  by_cases hle : N.ub ≤ (sv.pop s N rest).bestLb
+  · exact hpr hle
+  · obtain ⟨_, h2⟩ := hgood hle
+    left
+    have := cinv_lb_le_optV hI'
+    rw [hubeq]
+    omega
+
 /-- whatever a cut run reports later is at least as good: from a state `sp` of a well-formed model that satisfies the loop invariant,
-    all of whose open sub-problems have a bound `≤ u` with `optV ≤ u`, a run cut at any later poll `k` that has ended reports a
-    lower bound `≥` the incumbent of `sp` and an upper bound `≤ u` -/
+    whose reported upper bound is `≤ u` with `optV ≤ u`, a run cut at any later poll `k` that has ended reports a lower bound `≥` the
+    incumbent of `sp` and an upper bound `≤ u` (`best_ub` is only ever written by a minimum at a pop, or by `best_ub := best_lb ≤ optV`
+    at the end) -/
 theorem later_report {sv : SolverCfg S} {H : Nat → S → EInt} {B0 B : Int} (hwf : WellFormed sv H B0 B) (k : Nat) (u : Int)
     (hu : optV sv H ≤ u) :
-    ∀ (n : Nat) (sp : SeqSt S × Nat), CInv sv H sp.1 → sp.2 < k → (∀ c ∈ sp.1.fringe, c.ub ≤ u) →
+    ∀ (n : Nat) (sp : SeqSt S × Nat), CInv sv H sp.1 → sp.2 < k → sp.1.bestUb ≤ u →
       (sv.solveCut (some k) n sp).1.fringe = [] →
       sp.1.bestLb ≤ (finish (sv.solveCut (some k) n sp).1).bestLb ∧ (finish (sv.solveCut (some k) n sp).1).bestUb ≤ u := by
   have base : ∀ sp : SeqSt S × Nat, CInv sv H sp.1 →
@@ -347,15 +432,15 @@ theorem later_report {sv : SolverCfg S} {H : Nat → S → EInt} {B0 B : Int} (h
     | none => rw [solveCut_nil sv _ _ sp (popMax_none _ hpm)]; exact base sp hI
     | some Nr =>
       obtain ⟨N, rest⟩ := Nr
-      obtain ⟨_, _, hcr, hI', hbelow, hmem, _, hlb, hub, hmono, _⟩ := uturn_facts hwf hI hpm sp.2
+      obtain ⟨_, _, hcr, hI', hubeq, hmem, _, hlb, hub, hmono, _⟩ := uturn_facts hwf hI hpm sp.2
       obtain ⟨c1, c2⟩ := cutTurn_closed sv (sv.pop sp.1 N rest) N sp.2 k hp
-      have hNu := hfr N hmem
+      have hNu : (sv.pop sp.1 N rest).bestUb ≤ u := by rw [hub]; omega
       rw [solveCut_succ sv (some k) n sp N rest hpm] at hend ⊢
       by_cases hlt : (sv.cutTurn none (sv.pop sp.1 N rest) N sp.2).2 < k
       · obtain ⟨e1, e2⟩ := c1 hlt
         rw [e1, e2, hcr] at hend ⊢
         simp only [Bool.false_eq_true, if_false] at hend ⊢
-        obtain ⟨h1, h2⟩ := ih _ hI' hlt (fun c hc => Int.le_trans (hbelow c hc) hNu) hend
+        obtain ⟨h1, h2⟩ := ih _ hI' hlt (by rw [hubeq]; exact hNu) hend
         exact ⟨by omega, h2⟩
       · obtain ⟨e1, e2, _⟩ := c2 (by omega)
         obtain ⟨a1, _, a3, a4, _, _, _, a8⟩ := abortAt_facts sv (sv.pop sp.1 N rest) N sp.2 k
@@ -364,15 +449,15 @@ theorem later_report {sv : SolverCfg S} {H : Nat → S → EInt} {B0 B : Int} (h
         rw [solveCut_nil sv _ _ _ a1]
         show sp.1.bestLb ≤ (finish (sv.abortAt (sv.pop sp.1 N rest) N sp.2 k)).bestLb ∧
           (finish (sv.abortAt (sv.pop sp.1 N rest) N sp.2 k)).bestUb ≤ u
-        rw [a8, a3, hub]
+        rw [a8, a3]
         exact ⟨by omega, hNu⟩
 
-/-- **monotonicity, from a common state**: two runs of a well-formed model from the same state (loop invariant, fewer than `k` polls),
-    cut at the polls `k ≤ k'`, both ended: the later cut reports a lower bound at least as large and an upper bound at most as
-    large -/
+/-- **monotonicity, from a common state**: two runs of a well-formed model from the same state (loop invariant, sound reported pair,
+    fewer than `k` polls), cut at the polls `k ≤ k'`, both ended: the later cut reports a lower bound at least as large and an upper
+    bound at most as large -/
 theorem cut_pair_mono {sv : SolverCfg S} {H : Nat → S → EInt} {B0 B : Int} (hwf : WellFormed sv H B0 B) (k k' : Nat)
     (hkk : k ≤ k') :
-    ∀ (n n' : Nat) (sp : SeqSt S × Nat), CInv sv H sp.1 → sp.2 < k →
+    ∀ (n n' : Nat) (sp : SeqSt S × Nat), CInv sv H sp.1 → RepInv sv H sp.1 → sp.2 < k →
       (sv.solveCut (some k) n sp).1.fringe = [] → (sv.solveCut (some k') n' sp).1.fringe = [] →
       (finish (sv.solveCut (some k) n sp).1).bestLb ≤ (finish (sv.solveCut (some k') n' sp).1).bestLb ∧
       (finish (sv.solveCut (some k') n' sp).1).bestUb ≤ (finish (sv.solveCut (some k) n sp).1).bestUb := by
@@ -384,9 +469,9 @@ theorem cut_pair_mono {sv : SolverCfg S} {H : Nat → S → EInt} {B0 B : Int} (
     exact ⟨Int.le_refl _, Int.le_refl _⟩
   intro n
   induction n with
-  | zero => intro n' sp _ _ hend _; exact same 0 n' sp hend
+  | zero => intro n' sp _ _ _ hend _; exact same 0 n' sp hend
   | succ n ih =>
-    intro n' sp hI hp hend hend'
+    intro n' sp hI hRep hp hend hend'
     cases hpm : popMax sp.1.fringe with
     | none => exact same _ _ sp (popMax_none _ hpm)
     | some Nr =>
@@ -397,7 +482,8 @@ theorem cut_pair_mono {sv : SolverCfg S} {H : Nat → S → EInt} {B0 B : Int} (
         rw [this] at hpm
         cases hpm
       | succ m =>
-        obtain ⟨_, _, hcr, hI', hbelow, hmem, _, hlb, hub, hmono, hnp⟩ := uturn_facts hwf hI hpm sp.2
+        obtain ⟨_, _, hcr, hI', hubeq, hmem, _, hlb, hub, hmono, hnp⟩ := uturn_facts hwf hI hpm sp.2
+        obtain ⟨hRep', hgood⟩ := uturn_repInv hwf hI hRep hpm sp.2
         obtain ⟨c1, c2⟩ := cutTurn_closed sv (sv.pop sp.1 N rest) N sp.2 k hp
         obtain ⟨c1', c2'⟩ := cutTurn_closed sv (sv.pop sp.1 N rest) N sp.2 k' (by omega)
         rw [solveCut_succ sv (some k) n sp N rest hpm] at hend ⊢
@@ -409,23 +495,25 @@ theorem cut_pair_mono {sv : SolverCfg S} {H : Nat → S → EInt} {B0 B : Int} (
           rw [e1, e2, hcr] at hend ⊢
           rw [e1', e2', hcr] at hend' ⊢
           simp only [Bool.false_eq_true, if_false] at hend hend' ⊢
-          exact ih m _ hI' hlt hend hend'
+          exact ih m _ hI' hRep' hlt hend hend'
         · -- the earlier cutoff fires in this turn
           obtain ⟨e1, e2, hnpr⟩ := c2 (by omega)
           obtain ⟨a1, _, a3, a4, a5, a6, a7, a8⟩ := abortAt_facts sv (sv.pop sp.1 N rest) N sp.2 k
-          obtain ⟨hoptu, hlb1⟩ := hnp hnpr
+          obtain ⟨_, hlb1⟩ := hnp hnpr
+          obtain ⟨_, hoptu⟩ := hgood hnpr
           rw [e1, e2]
           simp only [Bool.false_eq_true, if_false]
           rw [solveCut_nil sv _ _ _ a1]
           show (finish (sv.abortAt (sv.pop sp.1 N rest) N sp.2 k)).bestLb ≤ _ ∧
             _ ≤ (finish (sv.abortAt (sv.pop sp.1 N rest) N sp.2 k)).bestUb
-          rw [a8, a3, hub]
+          rw [a8, a3]
           by_cases hlt' : (sv.cutTurn none (sv.pop sp.1 N rest) N sp.2).2 < k'
           · -- the later one does not: its run goes on from the state after the uninterrupted turn
             obtain ⟨e1', e2'⟩ := c1' hlt'
             rw [e1', e2', hcr] at hend' ⊢
             simp only [Bool.false_eq_true, if_false] at hend' ⊢
-            obtain ⟨h1, h2⟩ := later_report hwf k' N.ub hoptu m _ hI' hlt' hbelow hend'
+            obtain ⟨h1, h2⟩ := later_report hwf k' (sv.pop sp.1 N rest).bestUb hoptu m _ hI' hlt'
+              (by rw [hubeq]; exact Int.le_refl _) hend'
             exact ⟨by omega, h2⟩
           · -- both fire in this turn
             obtain ⟨e1', e2', _⟩ := c2' (by omega)
@@ -435,7 +523,7 @@ theorem cut_pair_mono {sv : SolverCfg S} {H : Nat → S → EInt} {B0 B : Int} (
             rw [solveCut_nil sv _ _ _ b1]
             show _ ≤ (finish (sv.abortAt (sv.pop sp.1 N rest) N sp.2 k')).bestLb ∧
               (finish (sv.abortAt (sv.pop sp.1 N rest) N sp.2 k')).bestUb ≤ _
-            rw [b8, b3, hub]
+            rw [b8, b3]
             refine ⟨?_, Int.le_refl _⟩
             by_cases hk : k ≤ (sv.cR none (sv.pop sp.1 N rest) N sp.2).2.1.polls
             · rw [a6 hk]; exact b4
@@ -468,7 +556,7 @@ theorem cut_bounds_monotone {sv : SolverCfg S} {H : Nat → S → EInt} {B0 B : 
     (hk : 1 ≤ k) (hkk : k ≤ k') (n n' : Nat) (hn : sv.ended (some k) n) (hn' : sv.ended (some k') n') :
     (sv.cutReport (some k) n).bestLb ≤ (sv.cutReport (some k') n').bestLb ∧
     (sv.cutReport (some k') n').bestUb ≤ (sv.cutReport (some k) n).bestUb :=
-  cut_pair_mono hwf k k' hkk n n' sv.start (init_cinv hwf) (by show 0 < k; omega) hn hn'
+  cut_pair_mono hwf k k' hkk n n' sv.start (init_cinv hwf) (init_repInv hwf) (by show 0 < k; omega) hn hn'
 
 /-- **`eventually_exact`**: for a well-formed model there are a fuel `nU` and a poll count `K` — the uninterrupted run ends within `nU`
     turns and makes `K` polls — such that for every `k > K` and every fuel `n ≥ nU` the run cut at poll `k` *is* the uninterrupted
